@@ -79,7 +79,23 @@ fn add_be(a: &[u8], k: u64) -> Vec<u8> {
 /// forbidden scalar patterns: values >= r
 fn bad_scalars() -> Vec<(&'static str, Vec<u8>)> {
     let r = hex::decode(R_HEX).unwrap();
-    vec![("scalar=r", r.clone()), ("scalar=r+1", add_be(&r, 1)), ("scalar=2^256-1", vec![0xff; 32]), ("scalar=r+2^32", add_be(&r, 1 << 32))]
+    let mut v = vec![("scalar=r", r.clone()), ("scalar=r+1", add_be(&r, 1)), ("scalar=2^256-1", vec![0xff; 32]), ("scalar=r+2^32", add_be(&r, 1 << 32))];
+    // r + 2^k for every k that still fits 256 bits, and r with single bits above its leading limb set: a hand-written
+    // limb comparison that is wrong in one limb accepts only a band of such values
+    for k in 0..=255usize {
+        let mut one = vec![0u8; 32];
+        one[31 - k / 8] = 1 << (k % 8);
+        if let Some(x) = plus_r(&one) {
+            v.push(("scalar=r+2^k", x));
+        }
+    }
+    for k in [1usize, 64, 65, 127, 128, 129, 191, 192, 193, 250] {
+        // 2^256 - 1 - 2^k: still >= r for every k < 255
+        let mut x = vec![0xffu8; 32];
+        x[31 - k / 8] &= !(1 << (k % 8));
+        v.push(("scalar=2^256-1-2^k", x));
+    }
+    v
 }
 
 /// forbidden G1 patterns, classified independently with bls12_381_plus primitives
@@ -386,6 +402,10 @@ fn check_one<CS: BbsCiphersuite>(rep: &Report, ck: &str, c: &Case) -> CheckResul
                     for (nm, pat) in &sbad {
                         forbidden(&put(pat), nm)?;
                     }
+                    // the honest value written as value + r
+                    if let Some(alias) = plus_r(&honest[off..off + 32]) {
+                        forbidden(&put(&alias), "scalar=value+r")?;
+                    }
                     let mut rm1 = hex::decode(R_HEX).unwrap();
                     rm1[31] = 0x00; // r ends in ...00000001
                     canon(&put(&rm1), "scalar=r-1")?;
@@ -605,7 +625,7 @@ pub fn run(ctx: &Ctx, rep: &Report) -> Meta {
         rule: "objects produced by the API (keys from generate / random, signatures, blind signatures, proofs with U = 0..4, commitments with M = 0..4, ZKPoK, blind factors, message scalars); \
                relation (1) decode(encode(x)) = x for octets, public-key coordinates and serde_json; relation (2) on honest encodings, single-bit flips (all bits in exhaustive-bit-flips, 48 sampled otherwise), \
                whole-scalar extensions / truncations, other valid points, r-1, 0: decode(b) = Ok(x) implies encode(x) = b; relation (3) forbidden classes are rejected: trailing bytes 1..=64, every truncation, the uncompressed form of a point spliced in place of the compressed one, several points of cofactor order that cancel in a sum (Abar = Q, Bbar = -Q and the like), \
-               scalar in {r, r+1, r+2^32, 2^256-1}, points with x >= p, off-curve, on-curve-but-outside-the-subgroup (found by search and classified with from_compressed_unchecked + is_torsion_free), bad flag combinations, \
+               scalar in {r, r+1, r+2^k for every k, 2^256-1, 2^256-1-2^k, the honest value + r}, points with x >= p, off-curve, on-curve-but-outside-the-subgroup (found by search and classified with from_compressed_unchecked + is_torsion_free), bad flag combinations, \
                identity as public key (compressed and coordinates), as signature point, as proof point, e = 0; primed-sequences (one thread, nothing else running): the honest key decoded by from_bytes / from_coordinates / not at all, then coordinates with single bits of y or x flipped, halves of y replaced by random octets, p or ff..ff, the negated point, x and y exchanged - accepted coordinates must re-encode to themselves - and every (160 sampled for long encodings) single-bit flip decoded right after its honest encoding; non-trivial = (codec, object) with its derived strings; evaluations = decode/encode judgements"
             .into(),
         assumptions: vec![
